@@ -6,6 +6,7 @@ import (
 	"net/http"
 	"net/url"
 	"strings"
+	"sync"
 
 	"github.com/emersion/go-ical"
 	"github.com/emersion/go-vcard"
@@ -55,11 +56,18 @@ type rig struct {
 	objs      map[string][]string // collection path -> object paths
 	own       map[string]bool     // every own resource path, both trailing-slash spellings
 	markers   []string            // tokens that only occur in own resources' content
+	user      string              // multi-user family: the user this rig stands for ("" otherwise)
+	session   *Case               // multi-user family: the session the rig belongs to
 }
 
-var icalCache = map[string]*ical.Calendar{}
+var (
+	icalMu    sync.Mutex
+	icalCache = map[string]*ical.Calendar{}
+)
 
 func calData(uid string) *ical.Calendar {
+	icalMu.Lock()
+	defer icalMu.Unlock()
 	if c := icalCache[uid]; c != nil {
 		return c
 	}
@@ -90,8 +98,10 @@ func vcfText(uid string) string {
 	return "BEGIN:VCARD\r\nVERSION:4.0\r\nUID:" + uid + "\r\nFN:" + uid + "\r\nEND:VCARD\r\n"
 }
 
-func build(cs *Case) *rig {
-	r := &rig{cs: cs, objs: map[string][]string{}, own: map[string]bool{}}
+// build makes the backend double of one user (tag distinguishes the content
+// markers of different users) and a handler of its own over it.
+func build(cs *Case, tag string) *rig {
+	r := &rig{cs: cs, objs: map[string][]string{}, own: map[string]bool{}, user: tag}
 	l := &cs.Layout
 	pp := cs.prefixPath()
 	addOwn := func(p string) {
@@ -113,7 +123,7 @@ func build(cs *Case) *rig {
 		cp := withSlash(base, l.CSlash)
 		r.colls = append(r.colls, cp)
 		addOwn(cp)
-		name, desc := fmt.Sprintf("MRKname-%d", i), fmt.Sprintf("MRKdesc-%d", i)
+		name, desc := fmt.Sprintf("MRK%sname-%d", tag, i), fmt.Sprintf("MRK%sdesc-%d", tag, i)
 		r.markers = append(r.markers, name, desc)
 		if r.cal != nil {
 			r.cal.Calendars = append(r.cal.Calendars, caldav.Calendar{Path: cp, Name: name, Description: desc, SupportedComponentSet: []string{"VEVENT"}})
@@ -123,7 +133,7 @@ func build(cs *Case) *rig {
 		r.objs[cp] = nil
 		for j, o := range c.Objs {
 			op := joinNames(base, o)
-			uid := fmt.Sprintf("MRKuid-%d-%d", i, j)
+			uid := fmt.Sprintf("MRK%suid-%d-%d", tag, i, j)
 			r.markers = append(r.markers, uid)
 			r.objs[cp] = append(r.objs[cp], op)
 			addOwn(op)
@@ -218,6 +228,53 @@ func (r *rig) reqPath() string {
 	}
 	return p
 }
+
+// spell writes the path p as a request target in one of several equivalent
+// escapings (RFC 3986 6.2.2: they all denote the same path).
+func spell(p, mode string) string {
+	const upper, lower = "0123456789ABCDEF", "0123456789abcdef"
+	var sb strings.Builder
+	esc := func(c byte, hex string) {
+		sb.WriteByte('%')
+		sb.WriteByte(hex[c>>4])
+		sb.WriteByte(hex[c&15])
+	}
+	switch mode {
+	case "over-upper", "over-lower":
+		hex := upper
+		if mode == "over-lower" {
+			hex = lower
+		}
+		for i := 0; i < len(p); i++ {
+			if p[i] == '/' {
+				sb.WriteByte('/')
+			} else {
+				esc(p[i], hex)
+			}
+		}
+		return sb.String()
+	case "mixed":
+		// The first byte of every segment escaped (whatever it is), lower-case
+		// hex, everything that may stand raw in a path left raw.
+		for i := 0; i < len(p); i++ {
+			c := p[i]
+			switch {
+			case c == '/':
+				sb.WriteByte(c)
+			case i > 0 && p[i-1] == '/':
+				esc(c, lower)
+			case c >= 'a' && c <= 'z', c >= 'A' && c <= 'Z', c >= '0' && c <= '9', strings.IndexByte("-._~!$&'()*+,;=:@", c) >= 0:
+				sb.WriteByte(c)
+			default:
+				esc(c, lower)
+			}
+		}
+		return sb.String()
+	}
+	return (&url.URL{Path: p}).EscapedPath()
+}
+
+var spellings = []string{"over-upper", "over-lower", "mixed"}
 
 func rawURL(p string) string {
 	return (&url.URL{Scheme: "http", Host: host, Path: p}).String()
@@ -336,6 +393,14 @@ func (r *rig) request(p string) (*http.Request, error) {
 	}
 	for k, v := range hdr {
 		req.Header[k] = v
+	}
+	if cs.Spelling != "" {
+		if alt := spell(p, cs.Spelling); alt != req.URL.EscapedPath() {
+			req.URL.RawPath = alt
+			if req.URL.EscapedPath() != alt {
+				return nil, fmt.Errorf("spelling %q of %q is not accepted by net/url", alt, p)
+			}
+		}
 	}
 	return req, nil
 }
